@@ -58,6 +58,13 @@ func init() {
 		// keys that collide under case folding / trimming / formatting verbs
 		"ID", "Id", "K", cp(0x212a), "A", "key ", " key", "%", "%s", "%d%%", "100%", "%!s(MISSING)", "%v%v"}, StrPool[:60]...)
 	StrPool = append(StrPool, "%", "%s", "%d", "%%", "50%% off", "%!", "%v", "%[1]s", "%5d", "ID", "id")
+	// text that writers for the web treat specially, alone and behind characters whose lower / upper case form has
+	// another UTF-8 length (offsets computed on a case-mapped copy do not fit the original)
+	web := []string{"</script>", "</SCRIPT>", "</Script", "<script>", "<!--", "-->", "]]>", "<![CDATA[", "&amp;", "&", "<", ">", "'", "${x}", "{{x}}", "javascript:", "\\/"}
+	StrPool = append(StrPool, web...)
+	for _, ch := range []rune{0x212a, 0x130, 0x2126, 0x23a, 0x1e9e, 0x131, 0x17f, 0xdf} {
+		StrPool = append(StrPool, cp(ch)+"</script>", cp(ch, ch)+"x</SCRIPT>"+cp(ch), "a"+cp(ch)+"<!--", cp(ch))
+	}
 }
 
 // SafeKeys are tree-form friendly (non-empty, no sigils).
